@@ -4209,3 +4209,119 @@ func E4FitnessChargeOnClassesOnly(c *core.Ctx, r *core.Report) {
 	r.Count("E4.fitness-charge-sites", n)
 	r.Floor("E4.fitness-charge-sites", 1)
 }
+
+// E4SwallowedGlueStops: the sums after a break run up to the next box or forced break, past every other penalty.
+func E4SwallowedGlueStops(c *core.Ctx, r *core.Report) {
+	r.Rule("E4.swallowed-glue-stops", "a line starts at the first box after its break: the glue and the penalties in between are discarded (a forced break among them ends the empty line). computeSum adds the glue a break swallows to the running sums so that the next line's length is measured from that box. The condition under which its loop stops, evaluated per item class (box; glue; penalty that is ordinary, prohibited +Infinity or forced −Infinity, at a position after the break), holds for a box and for a forced break and for nothing else. Stopping at every legal penalty leaves out the glue behind it — with `Glue Penalty(0) Glue(space)` for one space in ragged text, the space after a newline or the second of two spaces — and the next line is taken to be one space longer than it is: right-aligned lines end short of the width and a box that fits the word gets an empty line")
+	p := c.MustPkg("text")
+	info := p.TypesInfo
+	fd := core.MustFuncDecl(p, "linebreaker.computeSum")
+	r.Func("text.linebreaker.computeSum")
+	n := 0
+	ast.Inspect(fd.Body, func(m ast.Node) bool {
+		rs, ok := m.(*ast.RangeStmt)
+		if !ok {
+			return true
+		}
+		for _, st := range rs.Body.List {
+			is, ok := st.(*ast.IfStmt)
+			if !ok || len(is.Body.List) != 1 {
+				continue
+			}
+			if bs, ok := is.Body.List[0].(*ast.BranchStmt); !ok || bs.Tok != token.BREAK {
+				continue
+			}
+			n++
+			key := fmt.Sprintf("text.linebreaker.computeSum|stop condition #%d holds for a box and a forced break only", n)
+			type world struct {
+				name, typ string
+				pen       int // -1 forced, 0 ordinary, +1 prohibited
+				want      bool
+			}
+			worlds := []world{{"a box", "BoxType", 0, true}, {"glue", "GlueType", 0, false}, {"an ordinary penalty", "PenaltyType", 0, false}, {"a prohibited break (+Infinity)", "PenaltyType", 1, false}, {"a forced break (-Infinity)", "PenaltyType", -1, true}}
+			var wrong []string
+			for _, w := range worlds {
+				val := func(e ast.Expr) (int, bool) {
+					e = core.Unparen(e)
+					neg := 1
+					if u, ok := e.(*ast.UnaryExpr); ok && u.Op == token.SUB {
+						neg, e = -1, core.Unparen(u.X)
+					}
+					if id, ok := e.(*ast.Ident); ok && id.Name == "Infinity" {
+						if v, ok := info.Uses[id].(*types.Var); ok && v.Parent() == p.Types.Scope() {
+							return neg, true
+						}
+					}
+					if se, ok := e.(*ast.SelectorExpr); ok && se.Sel.Name == "Penalty" && neg == 1 {
+						return w.pen, true
+					}
+					return 0, false
+				}
+				got := evalBool(info, is.Cond, func(a ast.Expr) tri {
+					be, ok := a.(*ast.BinaryExpr)
+					if !ok {
+						return tUnknown
+					}
+					// item.Type == K
+					if be.Op == token.EQL || be.Op == token.NEQ {
+						for _, pr := range [][2]ast.Expr{{be.X, be.Y}, {be.Y, be.X}} {
+							if se, ok := core.Unparen(pr[0]).(*ast.SelectorExpr); ok && se.Sel.Name == "Type" {
+								if k := core.ConstName(info, pr[1]); k != "" {
+									return triOf((k == w.typ) == (be.Op == token.EQL))
+								}
+							}
+						}
+					}
+					// position after the break: 0 < i
+					if v, ok := core.ConstInt(info, be.X); ok && v == 0 && be.Op == token.LSS {
+						if _, isID := core.Unparen(be.Y).(*ast.Ident); isID {
+							return tTrue
+						}
+					}
+					if v, ok := core.ConstInt(info, be.Y); ok && v == 0 && (be.Op == token.GTR || be.Op == token.NEQ) {
+						if _, isID := core.Unparen(be.X).(*ast.Ident); isID {
+							return tTrue
+						}
+					}
+					l, ok1 := val(be.X)
+					rr, ok2 := val(be.Y)
+					if ok1 && ok2 {
+						switch be.Op {
+						case token.LSS:
+							return triOf(l < rr)
+						case token.LEQ:
+							return triOf(l <= rr)
+						case token.GTR:
+							return triOf(l > rr)
+						case token.GEQ:
+							return triOf(l >= rr)
+						case token.EQL:
+							return triOf(l == rr)
+						case token.NEQ:
+							return triOf(l != rr)
+						}
+					}
+					return tUnknown
+				})
+				switch {
+				case got == tUnknown:
+					wrong = append(wrong, "cannot be evaluated for "+w.name)
+				case (got == tTrue) != w.want:
+					if w.want {
+						wrong = append(wrong, "does not stop at "+w.name)
+					} else {
+						wrong = append(wrong, "stops at "+w.name)
+					}
+				}
+			}
+			if len(wrong) == 0 {
+				r.OK("E4.swallowed-glue-stops", key, c.Pos(is.Pos()), c.Src(is.Cond))
+			} else {
+				r.Fail("E4.swallowed-glue-stops", key, c.Pos(is.Pos()), fmt.Sprintf("`%s` %s: the glue behind it is swallowed by the break as well (the line starts at the next box) but is left out of the sums, so the next line is measured too long", c.Src(is.Cond), strings.Join(wrong, "; ")))
+			}
+		}
+		return true
+	})
+	r.Count("E4.swallowed-glue-loops", n)
+	r.Floor("E4.swallowed-glue-loops", 1)
+}
